@@ -268,7 +268,7 @@ CLAIMED = {
         "upper bound; its start depends on the boundary condition) - so no coefficient is dropped and nothing outside the kernel is read; "
         "inverse_fourier / inverse_fourier_1d are the forward transform with the opposite sign followed by division by the number of "
         "elements; the padded-DFT filter moves data into and out of the periodic padded array only through the modulo map and its dual "
-        "(copy in, filter in place, copy out, on every path); every call between the transforms passes an expression of the caller's sign for the callee's sign parameter (found by data flow from the exponent), never the default; no length guard of the one-dimensional transforms refuses an array length that arises for data of a supported length (powers of two 2..1024; guards folded over that list, following resize() and the calls between the transforms), and the real-data inverse returns as many elements as the forward transform was given (F62, fixed). NOT decided: every numerical identity of C19 (inverse of forward, real/complex agreement, Parseval, padded-DFT route = "
+        "(copy in, filter in place, copy out, on every path); every call between the transforms passes an expression of the caller's sign for the callee's sign parameter (found by data flow from the exponent), never the default; no length guard of the one-dimensional transforms refuses an array length that arises for data of a supported length (powers of two 2..1024; guards folded over that list, following resize() and the calls between the transforms), and the real-data inverse returns as many elements as the forward transform was given (F62, fixed); kernel builders that limit the kernel by a maximum size rescale what they keep by a sum taken after the limit (F63, fixed). NOT decided: every numerical identity of C19 (inverse of forward, real/complex agreement, Parseval, padded-DFT route = "
         "direct convolution, separability, mean preservation).",
         technique="static analysis: loop-bound shape rule per subscript axis over canonical keys with single-definition locals inlined; "
         "resolved-callee/argument check of the inverse transforms",
